@@ -229,7 +229,7 @@ def e2e_cases(ctx, rng, count):
     names = live_templates()
     out = []
     for i in range(count):
-        stream = ["bbb", "tears", "syn1", "syn2", "syn3", "syn4", "syn5", "syn6", "syn7", "syn8", "syn9", "synbig", "syn10", "bbbd"][i % 14]
+        stream = ["bbb", "tears", "syn1", "syn2", "syn3", "syn4", "syn5", "syn6", "syn7", "syn8", "syn9", "synbig", "syn10", "bbbd", "synodd"][i % 15]
         man = names[(i // 5) % len(names)]
         opts = {}
         for k, vals in OPTION_POOL:
@@ -309,25 +309,25 @@ def e2e_cases(ctx, rng, count):
             opts["start"] = rng.choice(["1000-01-01T00:00:00Z", "0100-06-01T12:00:00Z", "1479-12-31T23:59:59Z"])
         else:
             opts["start"] = start
-        if stream in ("bbb", "bbbd") and (i // 14) % 2 == 1 and i % 5 != 2:
+        if stream in ("bbb", "bbbd") and (i // 15) % 2 == 1 and i % 5 != 2:
             # a time-shift buffer given in the URL that is DEEPER than what a media request falls back to (the
             # server default, or the stream's stored default): every media type – the text track included – has
             # to receive it through its own URLs
             opts["depth"] = "3600" if stream == "bbb" else "600"
             man = "hand_made.mpd"
-            if (i // 28) % 2 == 0:
+            if (i // 30) % 2 == 0:
                 opts["timeline"] = "1"
             else:
                 opts.pop("timeline", None)
             opts.pop("drift", None)
             opts["start"] = (now - datetime.timedelta(seconds=3 * 3600 + 17)).strftime("%Y-%m-%dT%H:%M:%SZ")
-        if stream == "syn9" and (i // 14) % 2 == 0:
+        if stream == "syn9" and (i // 15) % 2 == 0:
             # the stream's stored defaults decide start, depth, leeway and update period: none of them in the URL
             for k in ("start", "depth", "leeway", "mup"):
                 opts.pop(k, None)
             if now.year < 2023:
                 now = now.replace(year=2023)
-        if stream == "syn9" and (i // 14) % 2 == 1:
+        if stream == "syn9" and (i // 15) % 2 == 1:
             # the URL spells options with exactly the SERVER's default values although the stream's stored
             # defaults differ: an explicit value wins over the stream default on the manifest side, so it has
             # to reach the media side as well (it must not be dropped as "equal to the default")
@@ -335,7 +335,7 @@ def e2e_cases(ctx, rng, count):
             sd_ = OptionsRepository.get_default_options()
             opts["depth"] = str(int(sd_.timeShiftBufferDepth))
             opts["leeway"] = str(int(sd_.leeway))
-            opts["start"] = "year" if (i // 28) % 2 == 0 else "epoch"
+            opts["start"] = "year" if (i // 30) % 2 == 0 else "epoch"
             opts.pop("mup", None)
         # (`year` is the server default: the calendar cases leave it out of the URL half of the time)
         q = "&".join(f"{k}={v}" for k, v in opts.items() if not (k == "start" and v == "year" and i % 10 == 2))
@@ -366,7 +366,7 @@ def ch_e2e(ctx) -> Channel:
     default_leeway = int(OptionsRepository.get_default_options().leeway)
     lines, recs = [], []
     with appboot.Clock("2023-01-01T00:00:00Z") as clock:
-        for stream, url, now, opts in e2e_cases(ctx, rng, ctx.scale(112, 924)):
+        for stream, url, now, opts in e2e_cases(ctx, rng, ctx.scale(120, 930)):
             trk = segchecks.tracks(app, stream)
             mpd, status, fetches = segchecks.walk_manifest(app, client, clock, stream, url, now, rng,
                                                            per_rep=ctx.scale(5, 12), want_init=True)
